@@ -95,6 +95,47 @@ Theorem C05_mhn_normal_proposal_refuted :
 Proof. exact mhn_normal_proposal_acc_refuted. Qed.
 Print Assumptions C05_mhn_normal_proposal_refuted.
 
+(* ---------------- InverseGamma and Beta (deepening round) ---------------- *)
+(* scipy's loc/scale inverse-gamma density -- the law scipy documents for invgamma.rvs(a, loc, scale), which is what
+   InverseGamma._sample calls, with the same arguments its logpdf hands to invgamma.logpdf -- is the density the class documents *)
+Theorem C05_wiring_invgamma : forall Gam a loc scale x, 0 < scale -> loc < x -> Gam <> 0 ->
+  sp_invgamma_pdf Gam a loc scale x = cuqi_invgamma_pdf Gam a loc scale x.
+Proof. exact wiring_invgamma. Qed.
+Print Assumptions C05_wiring_invgamma.
+
+(* ... and it is the law of loc + scale / G, G ~ Gamma(a, 1) (how the variates are generated): the distribution function of
+   that variable is 1 - F_G(scale/(x-loc)); its derivative is the documented density *)
+Theorem C05_invgamma_generation : forall (F : R -> R) Gam a loc scale x,
+  (forall g, is_derive F g (std_gamma_pdf Gam a g)) -> 0 < scale -> loc < x -> Gam <> 0 ->
+  is_derive (fun t => 1 - F (scale / (t - loc))) x (cuqi_invgamma_pdf Gam a loc scale x).
+Proof.
+  intros F Gam a loc scale x HF Hs Hx HG. rewrite <- invgamma_rvs_density by assumption.
+  apply invgamma_change_of_variables; assumption.
+Qed.
+Print Assumptions C05_invgamma_generation.
+
+(* Beta: the documented density of scipy/numpy's beta variates, x^(a-1) (1-x)^(b-1) / B(a,b), is the class's documented one
+   whenever B(a,b) = Gamma(a) Gamma(b) / Gamma(a+b) (the values of the Gamma function enter as parameters) *)
+Theorem C05_wiring_beta : forall Ga Gb Gab Bab a b x, Ga <> 0 -> Gb <> 0 -> Gab <> 0 -> Bab = Ga * Gb / Gab ->
+  sp_beta_pdf Bab a b x = cuqi_beta_pdf Ga Gb Gab a b x.
+Proof. exact wiring_beta. Qed.
+Print Assumptions C05_wiring_beta.
+
+(* ---------------- ModifiedHalfNormal, scheme 3 (gamma <= 0), for EVERY matching point m > 0 ---------------- *)
+(* the proposal Gamma(alpha v1, rate v2) is proper (1/2 <= v1 < 1, v2 > 0); the density of X = m T^v1 times the acceptance
+   ratio is proportional to x^(alpha-1) exp(-beta x^2 + gamma x); the acceptance ratio never exceeds 1 *)
+Theorem C05_mhn_negative_gamma : forall lnGam a b g m x, 0 < b -> g <= 0 -> 0 < m -> 0 < x ->
+  (/ 2 <= mhn_neg_v1 b g m < 1 /\ 0 < mhn_neg_v2 b g m) /\
+  mhn_neg_logg lnGam a b g m x + mhn_neg_logacc b g m (mhn_neg_t b g m x) - mhn_logf a b g x
+    = a * mhn_neg_v1 b g m * ln (mhn_neg_v2 b g m) - lnGam + ln (/ (mhn_neg_v1 b g m * m)) - (a - 1) * ln m /\
+  (forall t, 0 < t -> mhn_neg_logacc b g m t <= 0).
+Proof.
+  intros lnGam a b g m x Hb Hg Hm Hx. split; [apply mhn_neg_params; assumption|]. split.
+  - apply mhn_negative_gamma_proportional; assumption.
+  - intros t Ht. apply mhn_negative_gamma_acc_le_1; assumption.
+Qed.
+Print Assumptions C05_mhn_negative_gamma.
+
 (* ---------------- non-vacuity ---------------- *)
 Example C05_R_example : (3 - 2) * ln (mhn_mu 3 3 3) <= 0 /\ 0 < mhn_delta 1 2 3 < 2.
 Proof. split; [exact mhn_normal_guard_example | apply mhn_delta_range; lra]. Qed.
